@@ -159,3 +159,17 @@ pub fn row<C: MlsConfig>(b: &Before, opener: &Group<C>, commit: &MlsMessage, aft
     .join(" ");
     Row::Row(q, a)
 }
+
+/// `extpub` row: the external public key the group publishes for this epoch (GroupInfo extension `external_pub`) against
+/// `DeriveKeyPair(external_secret).pk` recomputed by the model (HPKE labeled extract / expand + the Lean X25519 reference).
+/// X25519 suites (1, 3) only.  Works for every epoch, with or without an update path.
+pub fn extpub_row<C: MlsConfig>(g: &Group<C>) -> Option<(String, String)> {
+    let suite = u16::from(g.cipher_suite());
+    if suite != 1 && suite != 3 {
+        return None;
+    }
+    let gi = g.group_info_message_allowing_ext_commit(false).ok()?;
+    let ext = gi.as_group_info()?.extensions().get_as::<mls_rs::extension::built_in::ExternalPubExt>().ok()??;
+    let external = g.verif_key_schedule()[4].clone();
+    Some((format!("extpub {suite} {}", hex(&external)), hex(ext.external_pub.as_ref())))
+}
